@@ -27,7 +27,6 @@ tvars == <<vars, cid, fs, k, ok, cut>>
 
 DeclOf(j) == [st |-> ToSet(j.st), ev |-> ToSet(j.ev), tt |-> ToSet(j.tt), svc |-> ToSet(j.svc), resp |-> j.resp, sf |-> j.sf]
 DefsOf(q) == [i \in 1..Len(q) |-> [n |-> q[i].n, d |-> DeclOf(q[i].d)]]
-OutCaseOf(give) == CHOOSE oc \in OutCases : oc.give = give
 
 TInit == /\ cid \in 1..Len(Cases) /\ fs \in 1..Len(FlagSeqs) /\ k = 0 /\ ok = TRUE /\ cut = 0
          /\ flags = ToSet(FlagSeqs[fs]) /\ sub = Cases[cid].sub /\ started = Cases[cid].started
@@ -50,7 +49,7 @@ Do(a) == CASE a.a = "define" -> Define(a.c, a.n, DeclOf(a.d))
            [] a.a = "fire"   -> Fire(a.e)
            [] a.a = "set"    -> SetState(a.x)
            [] a.a = "call"   -> Call(a.s, a.data, a.rr)
-           [] a.a = "out"    -> Out(a.c, a.form, OutCaseOf(a.give))
+           [] a.a = "out"    -> Out(a.c, a.form, a.give)
 
 \* the recording as a value comparable with Proj: runs as a set (the count is compared separately)
 ObsVal(o) == [o EXCEPT !.runs = ToSet(o.runs)]
